@@ -45,11 +45,30 @@ def mk(kind, data):
         return iter(list(data))
     if kind == 'gen':
         return (x for x in list(data))
+    if kind == 'stream':
+        return SharedStream(data)
+    if kind == 'fresh':
+        # every element is a brand-new object that nobody else keeps alive (values computed on the fly)
+        return (float(x) if type(x) is int else x for x in list(data))
     if kind == 'str':
         return ''.join(data)
     if kind == 'bytes':
         return bytes(data)
     raise ValueError(kind)
+
+
+class SharedStream(object):
+    """An iterable that is NOT its own iterator, yet every iterator it hands out drains the same underlying stream
+    (what file-like wrappers such as SpooledTemporaryFile or an HTTP response do)."""
+
+    def __init__(self, data):
+        self._it = iter(list(data))
+
+    def __iter__(self):
+        def drain():
+            for x in self._it:
+                yield x
+        return drain()
 
 
 def tochar(x):
@@ -311,6 +330,8 @@ def chunk_ranges_problems(out, input_size, chunk_size, input_offset, overlap_siz
         for (a, b) in out[:-1]:
             if b - a != chunk_size:
                 return 'inner range (%d, %d) shorter than chunk_size without align' % (a, b)
+    if stop - input_offset > 10 ** 6:
+        return None     # huge inputs: coverage follows from the clauses above (no gap can exist between neighbours)
     covered = set()
     for a, b in out:
         covered.update(range(a, b))
@@ -350,7 +371,7 @@ def gen(r):
     if fn in ('chunked', 'windowed'):
         size = r.choice([1, 2, 2, 3, 3, 4, 5, 7, 12])
         n = r.choice([0, 1, size - 1, size, size + 1, 2 * size, 2 * size + 1, 3 * size, r.randint(0, 40)])
-        kind = r.choice(['list', 'tuple', 'iter', 'gen', 'str', 'bytes'])
+        kind = r.choice(['list', 'tuple', 'iter', 'gen', 'str', 'bytes', 'stream', 'fresh'])
         if kind == 'str':
             data = [r.choice('abc') for _ in range(n)]
             fill = r.choice([_UNSET, _UNSET, '-'])
@@ -386,10 +407,18 @@ def gen(r):
                     'data': [r.choice(pool) for _ in range(n)], 'mixed': True,
                     'key': r.choice(['none', 'attr:missing']), 'vt': False, 'kf': r.random() < 0.4,
                     'keylist': r.random() < 0.3}
-        return {'fn': fn, 'kind': r.choice(['list', 'tuple', 'iter', 'gen']),
-                'data': [r.randint(0, 6) for _ in range(n)],
+        return {'fn': fn, 'kind': r.choice(['list', 'tuple', 'iter', 'gen', 'stream', 'fresh', 'fresh']),
+                'data': [r.randint(0, 6) for _ in range(n)] if r.random() < 0.8 else
+                        [r.randint(0, 3) for _ in range(3)] + [r.randint(0, 40) for _ in range(r.randint(10, 60))],
                 'key': r.choice(list(KEYFNS)), 'vt': r.random() < 0.4, 'kf': r.random() < 0.4,
                 'keylist': r.random() < 0.3}
+    if r.random() < 0.08:
+        # sizes far beyond 2**53 (file offsets, id spaces): all arithmetic must stay exact
+        cs = r.choice([2 ** 58, 2 ** 60 + 1, 10 ** 18, 2 ** 53 + 1, 3 * 2 ** 55])
+        ov = r.choice([0, 0, 1, cs // 3, cs - 1])
+        k = r.randint(1, 30)
+        return {'fn': fn, 'input_size': (cs - ov) * k + r.choice([0, 1, -1, cs // 2, 2]), 'chunk_size': cs,
+                'overlap_size': ov, 'input_offset': r.choice([0, 1, cs, 2 ** 61 + 5, cs - ov]), 'align': r.random() < 0.5}
     cs = r.randint(1, 12)
     return {'fn': fn, 'input_size': r.randint(0, 60), 'chunk_size': cs, 'overlap_size': r.randint(0, cs - 1),
             'input_offset': r.randint(0, 25), 'align': r.random() < 0.5}
